@@ -30,6 +30,8 @@ type Prog struct {
 	Funcs     map[string]*ssa.Function // by String()
 	Contracts map[string]*spec.FuncContract
 	Pures     map[string]*spec.PureFunc
+	// GhostInits: names (sorted) of the ghost states declared with an initial value for fresh objects
+	GhostInits []string
 	Lemmas    map[string]*spec.Lemma
 	LemmaList []*spec.Lemma
 	SpecSorts map[string]bool
@@ -137,6 +139,10 @@ func (p *Prog) addFile(f *spec.File) error {
 			return fmt.Errorf("%s: duplicate spec function %s", f.Path, pf.Name)
 		}
 		p.Pures[pf.Name] = pf
+		if pf.State && pf.Init != nil {
+			p.GhostInits = append(p.GhostInits, pf.Name)
+			sort.Strings(p.GhostInits)
+		}
 		p.FileOfPkg[pf.File] = f
 	}
 	for _, lm := range f.Lemmas {
@@ -230,7 +236,18 @@ func (p *Prog) ResolveType(text string, f *spec.File, S *Sorts) (types.Type, str
 		return types.Typ[types.String], "Str", nil
 	case "StrArr":
 		// the contents of a []string's backing array (see the builtins elems / off)
-		return nil, "(Array Int Str)", nil
+		return types.NewArray(types.Typ[types.String], 0), "(Array Int Str)", nil
+	}
+	if strings.HasPrefix(text, "Arr[") && strings.HasSuffix(text, "]") {
+		// Arr[T]: the contents of a []T's backing array (builtins elems / off), a mathematical array of T values
+		et, es, err := p.ResolveType(text[4:len(text)-1], f, S)
+		if err != nil {
+			return nil, "", err
+		}
+		if et == nil {
+			return nil, "(Array Int " + es + ")", nil
+		}
+		return types.NewArray(et, 0), "(Array Int " + es + ")", nil
 	}
 	if strings.HasPrefix(text, "func(") {
 		// function values are opaque in specs
